@@ -20,7 +20,7 @@ def cliIncludeAllSrc : Fc.PyLite.Fn := {
   name := "_include_all"
   params := []
   body := [
-    .ret (.ext "PatternFilter" [(.tuple [(.lit (.str "*"))])])
+    .ret (.ext "PatternFilter(patterns=)" [(.tuple [(.lit (.str "*"))])])
   ] }
 
 /-- translated from the source text of `fieldcompare/_cli/_common.py: _exclude_all` -/
@@ -28,7 +28,7 @@ def cliExcludeAllSrc : Fc.PyLite.Fn := {
   name := "_exclude_all"
   params := []
   body := [
-    .ret (.ext "PatternFilter" [(.tuple [])])
+    .ret (.ext "PatternFilter(patterns=)" [(.tuple [])])
   ] }
 
 /-- translated from the source text of `fieldcompare/_cli/_common.py: _parse_field_tolerances` -/
@@ -52,7 +52,7 @@ def cliParseFieldTolerancesSrc : Fc.PyLite.Fn := {
           .assign "v3" (.ite (.and (.var "v1") (.ext ".endswith" [(.var "v4"), (.lit (.str "*max"))])) (.ext "ScaledTolerance(base_tolerance=)" [(.ext "float" [(.index (.ext ".rsplit" [(.var "v4"), (.lit (.str "*max"))]) (.lit (.int 0)))])]) (.ext "float" [(.var "v4")]))
         ]
       ],
-      .ret (.ext "FieldToleranceMap(default_tol=)" [(.var "v2"), (.var "v3")])
+      .ret (.ext "FieldToleranceMap(default_tol=,tolerances=)" [(.var "v3"), (.var "v2")])
     ] [],
     .ret (.ext "FieldToleranceMap" [])
   ] }
